@@ -698,6 +698,25 @@ class Gen(object):
             return [f, a]
         return self.leaf(c, dim, avail)
 
+    def numfree(self, dim, avail):
+        """an expression of dimension dim built from variables only (no <cn>), or None"""
+        r = self.rng
+        vs = [v for v in avail if v['dim'] == dim]
+        if len(vs) >= 2:
+            a, b = r.sample(vs, 2)
+            e = [r.choice(['plus', 'minus', 'plus']), ci(a['name']), ci(b['name'])]
+            if len(vs) >= 3 and r.random() < 0.4:
+                e = ['plus', e, ci(r.choice([v for v in vs if v is not a and v is not b])['name'])]
+            return e
+        if len(vs) == 1:
+            for d2 in ('V', 'T', 'U', 'A', '1'):
+                ws = [v for v in avail if v['dim'] == d2 and v is not vs[0]]
+                if len(ws) >= 2 and r.random() < 0.7:
+                    p, q = r.sample(ws, 2)
+                    return ['times', ci(vs[0]['name']), ['divide', ci(p['name']), ci(q['name'])]]
+            return ci(vs[0]['name'])
+        return None
+
     def pos(self, c, dim, avail):
         """a denominator that cannot vanish: a positive number"""
         return cn(self.rng.choice(NUMS), self.rng.choice(POOL[dim]))
@@ -728,7 +747,9 @@ class Gen(object):
                 elif kind == 'comp':
                     v = self.new_var(c, base, units, 'comp')
                     v['defined'] = False
-                    rhs = self.expr(c, dim, avail, r.randint(1, 3))
+                    rhs = self.numfree(dim, avail) if r.random() < 0.3 else None
+                    if rhs is None:
+                        rhs = self.expr(c, dim, avail, r.randint(1, 3))
                     # sometimes: a derivative on the right-hand side
                     states = [(oc, ov) for (oc, ov) in owned if ov['role'] == 'state' and ov['dim'] == dim]
                     if states and r.random() < 0.35:
@@ -747,7 +768,11 @@ class Gen(object):
                     else:
                         v = self.new_var(c, base, units, 'state', init=r.choice(NUMS))
                         avail2 = avail + [v]
-                        rhs = ['divide', self.expr(c, dim, avail2, r.randint(1, 2)), self.pos(c, 'T', avail)]
+                        nf = self.numfree(dim, avail2) if r.random() < 0.3 else None
+                        if nf is not None:
+                            rhs = ['divide', nf, ci(lt['name'])]       # ds/dt = (x - y) / t, no number at all
+                        else:
+                            rhs = ['divide', self.expr(c, dim, avail2, r.randint(1, 2)), self.pos(c, 'T', avail)]
                         self.maths[c].append(['eq', ['diff', ci(v['name']), ci(lt['name'])], rhs])
                 owned.append((c, v))
         if self.case_names:
@@ -912,7 +937,7 @@ def two_comp_doc(p1, v1, p2, v2, rel, swap=False, u1='volt', u2='mV'):
     k = {'c1': 'A', 'c2': 'B', 'maps': [['x', 'x']]}
     if swap:
         k = {'c1': 'B', 'c2': 'A', 'maps': [['x', 'x']]}
-    doc = {'model_cmeta': None, 'units': unit_defs(), 'comps': comps, 'groups': groups, 'conns': [k]}
+    doc = {'model_cmeta': None, 'units': unit_defs(0), 'comps': comps, 'groups': groups, 'conns': [k]}
     doc['order'] = default_order(doc)
     doc['enum'] = [p1, v1, p2, v2, rel]
     return doc
@@ -1356,6 +1381,33 @@ def flow_target(doc, k, a, b):
     return (k['c2'], v2) if v2[k2] == 'in' else (k['c1'], v1)
 
 
+def remote_names(doc, c, c2, q):
+    """{identifier of c: identifier of c2} when every variable of equation q of component c is visible in c2 (same
+    ultimate owner, reached through connections), else None"""
+    def owner(comp, v):
+        return tuple(v['owner']) if v.get('owner') else (comp['name'], v['name'])
+    there = {}
+    for w in c2['vars']:
+        there.setdefault(owner(c2, w), w['name'])
+    out = {}
+    for kind, n in expr_leaves(q[1]) + expr_leaves(q[2]):
+        if kind != 'id':
+            return None
+        v = [x for x in c['vars'] if x['name'] == n]
+        if not v or owner(c, v[0]) not in there:
+            return None
+        out[n] = there[owner(c, v[0])]
+    return out
+
+
+def rename_expr(e, names):
+    if e[0] == 'ci':
+        return ci(names[e[1]])
+    if e[0] == 'cn':
+        return e
+    return [e[0]] + [rename_expr(a, names) for a in e[1:]]
+
+
 def fault_sites(doc):
     """every (class, site) applicable to this valid document"""
     out = []
@@ -1373,6 +1425,14 @@ def fault_sites(doc):
                 for kind in ('sum', 'number', 'second_order'):
                     out.append(['bad_lhs', i, mi, qi, kind])
                 out.append(['two_definitions', i, mi, qi])
+                if not any(k == 'unit' for k, _ in expr_leaves(q[1]) + expr_leaves(q[2])):
+                    # a VERBATIM repeat of an equation made of variables only: in the same <math>, in a new <math>,
+                    # and in every other component that sees all its variables through connections
+                    out.append(['verbatim_duplicate', i, mi, qi, 'same_math'])
+                    out.append(['verbatim_duplicate', i, mi, qi, 'new_math'])
+                    for j, c2 in enumerate(doc['comps']):
+                        if j != i and remote_names(doc, c, c2, q) is not None:
+                            out.append(['verbatim_duplicate', i, mi, qi, j])
                 nl = len(expr_leaves(q[2]))
                 for li in range(nl):
                     lk = expr_leaves(q[2])[li][0]
@@ -1461,6 +1521,19 @@ def apply_fault(doc, f):
         m = d['comps'][f[1]]['maths'][f[2]]
         q = copy.deepcopy(m[f[3]])
         m.append(['eq', q[1], ['times', cn('2', 'dimensionless'), q[2]]])
+    elif k == 'verbatim_duplicate':
+        c = d['comps'][f[1]]
+        q = copy.deepcopy(c['maths'][f[2]][f[3]])
+        if f[4] == 'same_math':
+            c['maths'][f[2]].append(q)
+        elif f[4] == 'new_math':
+            c['maths'].append([q])
+        else:
+            c2 = d['comps'][f[4]]
+            names = remote_names(d, c, c2, q)
+            if names is None:
+                return None
+            c2['maths'].append([['eq', rename_expr(q[1], names), rename_expr(q[2], names)]])
     elif k in ('undefined_identifier', 'undefined_number_units'):
         q = d['comps'][f[1]]['maths'][f[2]][f[3]]
         if k == 'undefined_identifier':
